@@ -16,7 +16,7 @@
      statement is kept in the comment above them. *)
 From Coq Require Import List ZArith Bool Arith Lia.
 From SC Require Import Base.Res Base.PyList Inst.Heap Inst.ClassTable Inst.Model Inst.Canon
-  Inst.Abs Inst.SpecHelpers Inst.RefineProofs Inst.CopyProofs Inst.CopyStore Inst.RefineMore Inst.RefineMore2 Inst.RefineMore3.
+  Inst.Abs Inst.SpecHelpers Inst.RefineProofs Inst.CopyProofs Inst.CopyStore Inst.RefineMore Inst.RefineMore2 Inst.RefineMore3 Inst.RefineMore4.
 Import ListNotations.
 Open Scope nat_scope.
 
@@ -601,6 +601,66 @@ Proof.
   vm_compute. repeat split.
 Qed.
 
+(* ---------------- reset() as a whole (Inst/RefineMore4.v) ---------------- *)
+(* every managed attribute of the class is covered by `dep_ok` (non-collection, pool
+   preparer, literal default: proper scalar or none), names unique, no invalidated_by:
+   reset(_inplace=True) leaves exactly the state the specification's fold over the
+   attributes computes (prepared defaults; attributes without default removed; an attribute
+   that has no default and holds nothing is skipped), or fails with its first error class *)
+Theorem C05_reset_top_refines_partial : forall ct h0 l c d k s,
+  nth_error (heap s) l = Some (OInst c d) -> lookup_cls ct c = Some k ->
+  NoDup (map fst d) -> aok (absv (heap s) (VRef l)) = true ->
+  c_frozen k = false -> no_inval k -> fail_at s = None ->
+  NoDup (map a_name (c_attrs k)) -> forallb (dep_ok k) (c_attrs k) = true ->
+  let h := mkh [] true true VMissing false None None [] None in
+  let ah := mkah [] true true AMissing false None None [] None in
+  match run_helper ct l HResetTop h s with
+  | (Ok r, s') => r = VRef l /\
+                  spec_helper ct h0 (absv (heap s) (VRef l)) SResetTop ah = SOk (absv (heap s') (VRef l)) /\
+                  (forall i, i <> l -> nth_error (heap s') i = nth_error (heap s) i)
+  | (Err e, s') => spec_helper ct h0 (absv (heap s) (VRef l)) SResetTop ah = SErr e /\
+                   (forall i, i <> l -> nth_error (heap s') i = nth_error (heap s) i)
+  end.
+Proof.
+  intros ct h0 l c d k s Hl Hc Hd Hok Hfz Hni Hfa Hnames Hall.
+  exact (reset_top_inplace_refines ct h0 l c d k s Hl Hc Hd Hok Hfz Hni Hfa Hnames Hall).
+Qed.
+
+(* ... and without _inplace on a flat receiver (unfrozen class, no __post_copy__ hook) *)
+Theorem C05_reset_top_copy_refines_partial : forall ct h0 l c d k s,
+  nth_error (heap s) l = Some (OInst c d) -> lookup_cls ct c = Some k ->
+  NoDup (map fst d) -> flat_fields (heap s) d ->
+  c_dnc k = false -> c_frozen k = false -> no_inval k -> fail_at s = None -> c_post_copy k = None ->
+  NoDup (map a_name (c_attrs k)) -> forallb (dep_ok k) (c_attrs k) = true ->
+  let h := mkh [] false true VMissing false None None [] None in
+  let ah := mkah [] false true AMissing false None None [] None in
+  match run_helper ct l HResetTop h s with
+  | (Ok r, s') => exists l', r = VRef l' /\ length (heap s) <= l' /\
+                  spec_helper ct h0 (absv (heap s) (VRef l)) SResetTop ah = SOk (absv (heap s') (VRef l')) /\
+                  (forall i, i < length (heap s) -> nth_error (heap s') i = nth_error (heap s) i)
+  | (Err e, s') => spec_helper ct h0 (absv (heap s) (VRef l)) SResetTop ah = SErr e /\
+                   (forall i, i < length (heap s) -> nth_error (heap s') i = nth_error (heap s) i)
+  end.
+Proof.
+  intros ct h0 l c d k s Hl Hc Hd Hflat Hdnc Hfz Hni Hfa Hpc Hnames Hall.
+  exact (reset_top_copy_unfrozen ct h0 l c d k s Hl Hc Hd Hflat Hdnc Hfz Hni Hfa Hpc Hnames Hall).
+Qed.
+
+Example C05_example_reset_top :
+  forallb (dep_ok ex_k2) (c_attrs ex_k2) = true /\ NoDup (map a_name (c_attrs ex_k2)) /\
+  (let '(r, s') := run_helper ex_ct2 0 HResetTop (mkh [] true true VMissing false None None [] None) ex_state2 in
+   r = Ok (VRef 0) /\ nth_error (heap s') 0 = Some (OInst 2 [(1, VInt 4)])) /\
+  spec_helper ex_ct2 [] (absv (heap ex_state2) (VRef 0)) SResetTop (mkah [] true true AMissing false None None [] None)
+    = SOk (AInst 2 [(1, AInt 4)]) /\
+  (* a second reset(): a3 holds nothing and has no default -- skipped, not an error *)
+  (let '(r, s') := run_helper ex_ct2 0 HResetTop (mkh [] true true VMissing false None None [] None)
+                     (mkst [OInst 2 [(1, VInt 4)]] 0 None) in
+   r = Ok (VRef 0) /\ nth_error (heap s') 0 = Some (OInst 2 [(1, VInt 4)])).
+Proof.
+  split; [vm_compute; reflexivity|]. split; [vm_compute; repeat constructor; simpl; intuition discriminate|].
+  vm_compute. repeat split.
+Qed.
+
 Print Assumptions C05_noop_if_false.
 Print Assumptions C05_noop_with_unchanged.
 Print Assumptions C05_noop_update_unchanged.
@@ -633,3 +693,6 @@ Print Assumptions C05_example_copy.
 Print Assumptions C05_refines_inval_partial.
 Print Assumptions C05_setattr_refines_inval_partial.
 Print Assumptions C05_example_inval.
+Print Assumptions C05_reset_top_refines_partial.
+Print Assumptions C05_reset_top_copy_refines_partial.
+Print Assumptions C05_example_reset_top.
